@@ -19,7 +19,7 @@ ASSUMPTIONS = ["models/membank.py + the writeEnableState rule of 102 9.10 (READ 
                "'after any read' is judged for reads that return; after a read that raises the state is only recorded"]
 EXHAUSTIVE = {"quick": False, "thorough": False}
 REQUIRED_ANCHORS = {"all": ["single_reads", "not_implemented_expected", "read_all_runs", "read_all_latched",
-                            "faults_injected", "post_state_checked", "interleaved_pairs", "abandoned_sequences"]}
+                            "faults_injected", "post_state_checked", "interleaved_pairs", "abandoned_sequences", "edge_patterns_read"]}
 SHARD_TIMEOUT = {"quick": 600, "thorough": 3000}
 
 BANKS = ["0", "0L", "1", "202", "203", "204", "205", "206", "207"]
@@ -32,6 +32,7 @@ def plan(tier, seed):
         for rep in range(reps):
             sh.append({"kind": "single", "bank": b, "rep": rep, "images": 24 if tier == "quick" else 48})
             sh.append({"kind": "all", "bank": b, "rep": rep, "images": 32 if tier == "quick" else 96})
+        sh.append({"kind": "edges", "bank": b})
     sh.append({"kind": "interleaved", "n": 200 if tier == "quick" else 4000})
     return sh
 
@@ -280,6 +281,71 @@ def run_single(desc, tier, seed, res):
     res.sample({"bank": bankkey, "values": [v[0] for v in values][:4], "n_values": len(values)})
 
 
+EDGE_BYTES = (0x00, 0x01, 0x06, 0x7F, 0x80, 0xFD, 0xFE, 0xFF)
+
+
+def run_edges(desc, tier, seed, res):
+    """Every declared value read from a unit that stores the patterns where interpretations branch: all 256 bytes for
+    one-byte values, every pair of edge bytes for two-byte values, edge first/last bytes around an all-zero or all-ones
+    middle for wider ones (sentinels, limits, sign bits, reserved codes, 'not implemented' markers).  The rest of the bank
+    is random; the same image is also read with read_all()."""
+    from models.bus import Bus
+    _mods()
+    bankkey = desc["bank"]
+    bank_obj, values = value_classes(bankkey)
+    spec_last = L.BANKS[bankkey][0]
+    for name, cls, row in values:
+        if name in ("LastAddress", "LockByte"):
+            continue
+        w = row.last - row.first + 1
+        if w == 1:
+            pats = [(b,) for b in range(256)]
+        elif w == 2:
+            pats = [(a, b) for a in EDGE_BYTES for b in EDGE_BYTES]
+        else:
+            pats = [(a,) + (m,) * (w - 2) + (b,) for a in EDGE_BYTES for b in EDGE_BYTES for m in (0x00, 0xFF)]
+        if tier == "quick" and len(pats) > 64:
+            r0 = rng(seed, "C09", "edges-pick", bankkey, name)
+            keep = [p_ for p_ in pats if set(p_) <= {0x00, 0xFF, 0xFE}]
+            pats = keep + r0.sample(pats, 64 - len(keep)) if len(keep) < 64 else keep[:64]
+        for pi, pat in enumerate(pats):
+            r = rng(seed, "C09", "edges", bankkey, name, pi)
+            img = make_image(r, bankkey, "random")
+            img[row.first:row.last + 1] = list(pat)
+            family = ("gear", "device", "int")[pi % 3]
+            unit, other, bank, other_bank, addr = make_unit(r, bankkey, img, spec_last, [], family)
+            bus = Bus([unit, other], bound=400)
+            before = list(bank.image)
+            res.evaluations += 1
+            res.distinct += 1
+            res.hit("edge_patterns_read")
+            wit = {"value": name, "bank": bankkey, "family": family, "bytes": list(pat)}
+            try:
+                got = bus.run_sequence(cls.read(addr))
+            except Exception as e:
+                res.violation(f"C09/read/raised/{type(e).__name__}", f"{name}: unit stores {list(pat)}: {type(e).__name__}: {e}",
+                              {**wit, "tb": short_tb(e)})
+                continue
+            want = expected_value(row, bank.image, bank)
+            if not L.same(got, want):
+                res.violation(f"C09/read/value/{row.kind}", f"{name} ({family}): unit stores {list(pat)}, read returned {got!r}, "
+                              f"expected {want!r}", wit)
+                continue
+            post_state(res, bank, other_bank, before, "read", wit)
+            if pi % 8 == 0:
+                unit2, other2, bank2, ob2, addr2 = make_unit(rng(seed, "C09", "edges", bankkey, name, pi), bankkey, img, spec_last, [], family)
+                try:
+                    allv = Bus([unit2, other2], bound=3000).run_sequence(bank_obj.read_all(addr2))
+                except Exception as e:
+                    res.violation(f"C09/read_all/raised/{type(e).__name__}", f"bank {bankkey} with {name} holding {list(pat)}: "
+                                  f"{type(e).__name__}: {e}", {**wit, "tb": short_tb(e)})
+                    continue
+                res.hit("edge_patterns_read_all")
+                if cls not in allv or not L.same(allv[cls], want):
+                    res.violation(f"C09/read_all/value/{row.kind}", f"{name}: unit stores {list(pat)}, read_all reports "
+                                  f"{allv.get(cls, '<absent>')!r}, expected {want!r}", wit)
+
+
 def run_all(desc, tier, seed, res):
     from dali.exceptions import MemoryLocationNotImplemented, ResponseError
     from models.bus import Bus
@@ -467,6 +533,8 @@ def run_shard(desc, tier, seed):
         return res
     if desc["kind"] == "single":
         run_single(desc, tier, seed, res)
+    elif desc["kind"] == "edges":
+        run_edges(desc, tier, seed, res)
     elif desc["kind"] == "interleaved":
         run_interleaved(desc, seed, res)
         run_bad_addresses(res)
